@@ -23,20 +23,27 @@ pub struct Chooser {
     /// schedule; beyond it every choice point is forced to its default.
     max_dev: Option<u32>,
     dev_used: u32,
+    /// Random walks only: probability (percent) of taking the default (first) choice.
+    default_pct: u64,
 }
 
 impl Chooser {
+    /// Random walk that mostly follows the base policy (default choice) and deviates now and then:
+    /// reaches long runs of the same outcome (e.g. hundreds of one-byte transfers in one call).
+    pub fn random_biased(rng: vcore::rng::Rng, default_pct: u64) -> Self {
+        Chooser { path: Vec::new(), depth: 0, random: Some(rng), max_dev: None, dev_used: 0, default_pct }
+    }
     pub fn exhaustive() -> Self {
         Chooser::default()
     }
     pub fn random(rng: vcore::rng::Rng) -> Self {
-        Chooser { path: Vec::new(), depth: 0, random: Some(rng), max_dev: None, dev_used: 0 }
+        Chooser { path: Vec::new(), depth: 0, random: Some(rng), max_dev: None, dev_used: 0, default_pct: 0 }
     }
     pub fn bounded(max_dev: u32) -> Self {
         Chooser { max_dev: Some(max_dev), ..Chooser::default() }
     }
     pub fn from_path(p: &[u8]) -> Self {
-        Chooser { path: p.iter().map(|c| (*c, c + 1)).collect(), depth: 0, random: None, max_dev: None, dev_used: 0 }
+        Chooser { path: p.iter().map(|c| (*c, c + 1)).collect(), depth: 0, random: None, max_dev: None, dev_used: 0, default_pct: 0 }
     }
     pub fn begin_run(&mut self) {
         self.depth = 0;
@@ -48,7 +55,7 @@ impl Chooser {
     pub fn choose(&mut self, n: u8) -> u8 {
         debug_assert!(n >= 1);
         if let Some(r) = &mut self.random {
-            let c = r.below(n as u64) as u8;
+            let c = if self.default_pct > 0 && r.below(100) < self.default_pct { 0 } else { r.below(n as u64) as u8 };
             self.path.push((c, n));
             self.depth += 1;
             return c;
@@ -138,11 +145,13 @@ pub struct Src {
     /// once set the script only delivers (used for the bounded-progress check)
     pub calm: bool,
     pub max_request: usize,
+    pub kind_salt: usize,
 }
 
 impl Src {
     pub fn new(data: Vec<u8>, ch: Choices, b: Bounds) -> Self {
-        Src { data, pos: 0, ch, b, consecutive_pending: 0, errors_injected: 0, polls: 0, calm: false, max_request: 0 }
+        let kind_salt = data.len();
+        Src { data, pos: 0, ch, b, consecutive_pending: 0, errors_injected: 0, polls: 0, calm: false, max_request: 0, kind_salt }
     }
 }
 
@@ -190,7 +199,11 @@ impl AsyncRead for Src {
             4 => {
                 self.consecutive_pending = 0;
                 self.errors_injected += 1;
-                Poll::Ready(Err(io::Error::new(io::ErrorKind::Other, "transient")))
+                // the *kind* of a transient error must not matter (it is the source's business):
+                // rotate through kinds a reader could mistake for something else
+                let kinds = [io::ErrorKind::Other, io::ErrorKind::UnexpectedEof, io::ErrorKind::TimedOut, io::ErrorKind::ConnectionReset, io::ErrorKind::WriteZero];
+                let kind = kinds[(self.errors_injected as usize + self.kind_salt) % kinds.len()];
+                Poll::Ready(Err(io::Error::new(kind, "transient")))
             }
             k => {
                 self.consecutive_pending = 0;
@@ -218,11 +231,12 @@ pub struct Sink {
     pub zeros_injected: u8,
     pub polls: u64,
     pub calm: bool,
+    pub kind_salt: usize,
 }
 
 impl Sink {
     pub fn new(ch: Choices, b: Bounds) -> Self {
-        Sink { out: Vec::new(), ch, b, consecutive_pending: 0, errors_injected: 0, zeros_injected: 0, polls: 0, calm: false }
+        Sink { out: Vec::new(), ch, b, consecutive_pending: 0, errors_injected: 0, zeros_injected: 0, polls: 0, calm: false, kind_salt: (b.drops as usize + b.pendings as usize) }
     }
 }
 
@@ -269,7 +283,9 @@ impl AsyncWrite for Sink {
             4 => {
                 self.consecutive_pending = 0;
                 self.errors_injected += 1;
-                Poll::Ready(Err(io::Error::new(io::ErrorKind::Other, "transient")))
+                let kinds = [io::ErrorKind::Other, io::ErrorKind::WriteZero, io::ErrorKind::TimedOut, io::ErrorKind::BrokenPipe, io::ErrorKind::UnexpectedEof];
+                let kind = kinds[(self.errors_injected as usize + self.kind_salt) % kinds.len()];
+                Poll::Ready(Err(io::Error::new(kind, "transient")))
             }
             5 => {
                 self.consecutive_pending = 0;
